@@ -153,8 +153,9 @@ class FaultyStream:
     """Recording / fault-injecting double: each read may be cut short according to `cuts`
     (a list of ints; cut k is the maximum number of bytes read call k may return; None = no cut)."""
 
-    def __init__(self, data, cuts=()):
+    def __init__(self, data, cuts=(), as_bytearray=False):
         self.data = data
+        self.as_bytearray = as_bytearray  # a duck-typed stream whose reads return bytearray objects
         self.pos = 0
         self.cuts = list(cuts)
         self.calls = 0
@@ -174,7 +175,7 @@ class FaultyStream:
         d = self.data[self.pos:self.pos + n]
         self.pos += len(d)
         self.last_empty = len(d) == 0
-        return d
+        return bytearray(d) if self.as_bytearray else d
 
     def readline(self):
         i = self.data.find(b"\n", self.pos)
@@ -183,7 +184,7 @@ class FaultyStream:
         d = self.data[self.pos:self.pos + n]
         self.pos += len(d)
         self.last_empty = len(d) == 0
-        return d
+        return bytearray(d) if self.as_bytearray else d
 
 
 def wf_frame(raw: bytes) -> bool:
